@@ -3,6 +3,7 @@ import RsModel.Lemmas.CharStarts
 import RsModel.Props.C10
 import RsModel.Props.C16
 import RsModel.Lemmas.CposBoundary
+import RsModel.Lemmas.ConcV
 /-!
 # C19 — unsafe code never acts outside its preconditions
 One theorem per kind of unsafe operation: the stated precondition holds whenever the model reaches it.
@@ -95,5 +96,18 @@ theorem c19_rope_unchecked_ok (p : RProgS) (h : p.TextsOK) (r : Rope) (hr : p.ev
   obtain ⟨s1, _⟩ := Rope.byteSlice_spec r hw (cpos r.render a) (cpos r.render b) (cpos_mono _ a b hab) (cpos_le _ b)
   obtain ⟨r', e1, e2, _⟩ := s1 (by rw [cpos_boundary, cpos_boundary]; rfl)
   exact ⟨r', e1, e2⟩
+
+/-- **the lifetime-extended reference into the cache** (`transmute::<&SourceMap, &'a SourceMap>` in `CachedSource::stream_chunks`):
+under concurrent use as in C18 — any number of threads, any operations on the shared CachedSource and its clones, every interleaving —
+a map that is in the cache at some point of an execution is that very entry at every later point of every continuation of the
+execution: never removed, never replaced (not even by an equal value computed by a racing call).  So the referent of the extended
+borrow outlives every borrow taken from it while the cache lives.  (`Model/ConcV.lean`; the `map()` that missed stores with
+`or_insert`, the racing `stream_chunks` stores only into an entry it has kept locked and vacant.) -/
+theorem c19_cached_map_outlives_borrow (P : ConcV.Params) (hnc : P.inner.NoCached) (r : RState) (hr : r.Inv) (σ : Store)
+    (progs : List (List ConcV.Op)) (sched later : List Nat) (k : Nat × Opts) (v : Option SMap)
+    (hv : (ConcV.run P (ConcV.initSys r σ progs) sched).sh.σ.get? k = some v) :
+    (ConcV.run P (ConcV.initSys r σ progs) (sched ++ later)).sh.σ.get? k = some v := by
+  rw [ConcV.run_append]
+  exact ConcV.entry_run P hnc r.repls σ later _ (ConcV.inv_run P hnc r.repls σ sched _ (ConcV.inv_init P r hr σ progs)) k v hv
 
 end Rs
